@@ -1,10 +1,11 @@
 #!/bin/bash
+VROOT="$(cd "$(dirname "${BASH_SOURCE[0]}")/.." && pwd)"
 # Runs tools/seedcheck.sh for every line "<id> <Cxx>..." of seeded/checks.txt (or only the ids given)
 # and writes seeded/<id>/verified.txt.
-cd /verif
+cd "$VROOT"
 while read -r id props; do
   [ -z "$id" ] && continue
   if [ $# -gt 0 ] && ! echo " $* " | grep -q " $id "; then continue; fi
-  { echo "seedcheck $id against: $props  ($(date -u +%Y-%m-%dT%H:%MZ), repo $(git -C /repo rev-parse --short HEAD), verif $(git -C /verif rev-parse --short HEAD))"; tools/seedcheck.sh seeded/$id $props 2>&1 | cut -c1-400; echo "seedcheck exit: ${PIPESTATUS[0]}"; } > seeded/$id/verified.txt
+  { echo "seedcheck $id against: $props  ($(date -u +%Y-%m-%dT%H:%MZ), repo $(git -C /repo rev-parse --short HEAD), verif $(git -C "$VROOT" rev-parse --short HEAD))"; tools/seedcheck.sh seeded/$id $props 2>&1 | cut -c1-400; echo "seedcheck exit: ${PIPESTATUS[0]}"; } > seeded/$id/verified.txt
   tail -1 seeded/$id/verified.txt | sed "s/^/$id: /"
 done < seeded/checks.txt
